@@ -534,7 +534,7 @@ func knownNonNilError(v ssa.Value) bool {
 	case *ssa.UnOp:
 		if g, ok := x.X.(*ssa.Global); ok && x.Op == token.MUL {
 			n := g.Name()
-			return len(n) > 3 && (n[:3] == "Err" || n[:3] == "err")
+			return n == "EOF" || len(n) > 3 && (n[:3] == "Err" || n[:3] == "err")
 		}
 	}
 	return false
